@@ -559,6 +559,13 @@ class EvalMixin(object):
                 e = z3.And(PyVal.is_pbool(a.e), PyVal.pb(a.e) == b.e)
             elif isinstance(a, VRef) and isinstance(b, VRef):
                 e = z3.BoolVal(a.oid == b.oid)
+            elif all(isinstance(x, VRef) or (isinstance(x, VOpt) and isinstance(x.val, VRef)) for x in (a, b)):
+                # Optional[object] is Optional[object]: both None, or both the same object
+                na = a.isnone if isinstance(a, VOpt) else z3.BoolVal(False)
+                nb = b.isnone if isinstance(b, VOpt) else z3.BoolVal(False)
+                ra = a.val if isinstance(a, VOpt) else a
+                rb = b.val if isinstance(b, VOpt) else b
+                e = z3.Or(z3.And(na, nb), z3.And(z3.Not(na), z3.Not(nb), z3.BoolVal(ra.oid == rb.oid)))
             elif isinstance(b, VBool) and isinstance(a, (VStr, VInt, VRef, VTuple)):
                 e = z3.BoolVal(False)      # `x is True/False` for a value of another type
             elif isinstance(a, VBool) and isinstance(b, (VStr, VInt, VRef, VTuple)):
@@ -611,6 +618,10 @@ class EvalMixin(object):
             return z3.Or(*[self.eq(x, y, st) for y in items]) if items else z3.BoolVal(False)
         if isinstance(cont, VRef):
             cell = st.heap[cont.oid]
+            if isinstance(cell, HObj) and (cell.cls, "__contains__") in self.method_contracts and not self.in_contract:
+                # `x in obj` on an object whose class has __contains__ under contract: the call by contract
+                r = self.method_contracts[(cell.cls, "__contains__")](cont).fn(self, st, [x], {}, node)
+                return self.truth(r, st)
             if isinstance(cell, HCList):
                 return z3.Or(*[self.eq(x, y, st) for y in cell.items]) if cell.items else z3.BoolVal(False)
             if isinstance(cell, HDict):
